@@ -1,6 +1,7 @@
 package drivers
 
 import (
+	"sync"
 	"encoding/json"
 	"flag"
 	"fmt"
@@ -217,6 +218,26 @@ func runStuckScenario(bin, scenario string, round int) stuckOutcome {
 	o.SetupMS = time.Since(t0).Milliseconds()
 	step("connected_peer_never_reported_as_unknown", !notFound)
 	switch scenario {
+	case "noisy":
+		// the peer that does not read is also one that talks: it addresses envelopes to a peer id nobody has. Every
+		// one of them is answered (peer_not_found) on its own connection, until that answer does not go out any more.
+		// Then somebody routes an envelope to it. Two writers now want the one connection - and the server has to
+		// survive that
+		wrote := 0
+		for i := 0; i < 120000; i++ {
+			stuck.SetWriteDeadline(time.Now().Add(400 * time.Millisecond))
+			if err := stuck.WriteJSON(appEnv("nobody", 300000+i, 0)); err != nil {
+				break
+			}
+			wrote++
+		}
+		o.Steps = append(o.Steps, fmt.Sprintf("envelopes_to_an_unknown_peer_written=%d", wrote))
+		for k := 0; k < 5; k++ {
+			r2.sendEnv(appEnv("recvA1", 400000+k, 100))
+			ha.sendEnv(appEnv("recvA1", 500000+k, 100))
+			time.Sleep(30 * time.Millisecond)
+		}
+		time.Sleep(300 * time.Millisecond)
 	case "reconnect":
 		// the stuck peer's device comes back: a new connection under the same peer id
 		done := make(chan *wsClient, 1)
@@ -259,10 +280,25 @@ func runStuckScenario(bin, scenario string, round int) stuckOutcome {
 		step("rejoined_peer_gets_peer_list", r2.waitFor(stuckBound, func(e protocol.Envelope) bool { return e.Type == protocol.TypePeerList }))
 		step("rejoined_peer_routable", roundTrip(ha, r2, "recvA2", 3))
 	case "expiry":
-		// both sessions were created at t0 and live 12 s; wait for the end of the stuck peer's session
-		for time.Since(t0) < 12500*time.Millisecond {
-			time.Sleep(50 * time.Millisecond)
+		// both sessions were created at t0 and live 12 s; wait for the end of the stuck peer's session. Around that
+		// moment late joiners keep trying the code (a link that is still open in somebody's terminal): some of the
+		// attempts fall between the end of the lifetime and the end of the server's own clean-up
+		for time.Since(t0) < 11800*time.Millisecond {
+			time.Sleep(20 * time.Millisecond)
 		}
+		var lateWG sync.WaitGroup
+		for g := 0; g < 6; g++ {
+			lateWG.Add(1)
+			go func(g int) {
+				defer lateWG.Done()
+				for k := 0; time.Since(t0) < 12700*time.Millisecond; k++ {
+					if c, _, err := dialWS(wsURL(srv, codes[0], fmt.Sprintf("late%d-%d", g, k), "receiver")); err == nil {
+						c.conn.Close()
+					}
+				}
+			}(g)
+		}
+		lateWG.Wait()
 		end := time.Now().Add(stuckBound)
 		for time.Now().Before(end) && !(ha.isDead() && r2.isDead()) {
 			time.Sleep(20 * time.Millisecond)
@@ -314,7 +350,7 @@ func StuckPeer(args []string) {
 	fs := flag.NewFlagSet("stuck-peer", flag.ExitOnError)
 	bin := fs.String("thruserv", "", "thruserv binary")
 	rounds := fs.Int("rounds", 1, "rounds of the scenarios")
-	scen := fs.String("scenarios", "reconnect,leave,expiry,expiry", "comma separated scenarios")
+	scen := fs.String("scenarios", "reconnect,leave,expiry,expiry,noisy", "comma separated scenarios")
 	shard := fs.Int("shard", 0, "shard")
 	shards := fs.Int("shards", 1, "shards")
 	fs.Parse(args)
@@ -342,6 +378,9 @@ func StuckPeer(args []string) {
 				kind := "server_waits_for_a_peer_that_stopped_reading"
 				if o.Failed == "connected_peer_never_reported_as_unknown" {
 					kind = "connected_peer_reported_as_unknown"
+				}
+				if o.Failed == "health_answers" || o.Failed == "new_session_can_be_created" || o.Failed == "uninvolved_session_routes" || o.Failed == "uninvolved_session_expired_too" {
+					kind = "server_stopped_serving_uninvolved_clients"
 				}
 				res.AddViolation(map[string]any{"kind": kind, "scenario": sc, "step": o.Failed}, o)
 			} else {
